@@ -144,7 +144,7 @@ def gen_case(rng, tier, g):
                 args['vrepr'] = rng.choice(['repr', 'upper'])
             if rng.random() < 0.3:
                 args['tr_style'] = rng.choice(['color: red', '@first',
-                                               '@len'])
+                                               '@len', '@byname', '@byname'])
             if rng.random() < 0.3:
                 args['td_styles'] = rng.choice(['font: x', '@value',
                                                 '@dict-str', '@dict-fn',
@@ -253,6 +253,13 @@ def _hdr_of(table):
     return list(rows[0]) if rows else []
 
 
+def _style_by_name(rec):
+    try:
+        return 'a: %s; %s' % (rec['a'], getattr(rec, 'b', 'no-b'))
+    except Exception as ex:
+        return 'err: %s' % type(ex).__name__
+
+
 def _html_args(a, hdr=()):
     # callables travel by name in the (JSON) case
     if a.get('vrepr') == 'repr':
@@ -263,6 +270,10 @@ def _html_args(a, hdr=()):
         a['tr_style'] = lambda rec: 'x: %s' % (rec[0],) if len(rec) else ''
     elif a.get('tr_style') == '@len':
         a['tr_style'] = lambda rec: 'n: %d' % len(rec)
+    elif a.get('tr_style') == '@byname':
+        # the documented use: the function is handed a record and looks
+        # values up by field name / as attributes
+        a['tr_style'] = _style_by_name
     ts = a.get('td_styles')
     if ts == '@value':
         a['td_styles'] = lambda v: 'v: %s' % (v,) if v else ''
